@@ -80,10 +80,8 @@ fn import_path(req: &Value) -> Value {
     let want = norm(&cwd.join(&import));
     let mut notes = vec![];
     let mut agree = true;
-    if !import.to_string_lossy().ends_with(".ts") {
-        // hypothesis of the resolution law: the dependency's file carries the `.ts` extension (TypeScript cannot import anything else)
-        return json!({"skipped": "import file does not end in .ts", "agree": true});
-    }
+    let plain = !import.to_string_lossy().ends_with(".ts");
+    // a dependency file without the `.ts` extension keeps its whole name in the specifier (only `.ts` is ever removed)
     if let (Some(w), Some(d)) = (&want, norm(&cwd.join(&from)).and_then(|p| p.parent().map(|x| x.to_path_buf()))) {
         if d.starts_with(w) {
             // a path cannot be both the dependency's file and a directory containing the importing file
@@ -96,7 +94,7 @@ fn import_path(req: &Value) -> Value {
             if s.contains('\\') { agree = false; notes.push("backslash"); }
             if s.ends_with(".js") != esm { agree = false; notes.push("js suffix vs import-esm"); }
             let stem = if esm { s.strip_suffix(".js").unwrap_or(s) } else { s.as_str() };
-            let file = format!("{stem}.ts");
+            let file = if plain { stem.to_string() } else { format!("{stem}.ts") };
             let dir = cwd.join(&from).parent().map(|p| p.to_path_buf()).unwrap_or_default();
             let resolved = norm(&dir.join(&file));
             if resolved != want || want.is_none() { agree = false; notes.push("does not resolve to the dependency's file"); }
@@ -149,6 +147,25 @@ second paragraph after a blank line */
     #[derive(TS)]
     #[ts(export_to = "views.ts")]
     pub struct W2 { pub y: P1, pub z: P3 }
+    // a generic type next to siblings whose names extend its identifier
+    #[derive(TS)]
+    #[ts(export_to = "pairs.ts")]
+    pub struct Pair<T> { pub a: T, pub b: T }
+    #[derive(TS)]
+    #[ts(export_to = "pairs.ts")]
+    pub struct Pair2 { pub a: i32 }
+    #[derive(TS)]
+    #[ts(export_to = "pairs.ts")]
+    pub struct Pair3 { pub a: i32 }
+    /** One line of documentation, the comment is closed on the next line
+*/
+    #[derive(TS)]
+    #[ts(export_to = "shared.ts")]
+    pub struct Q { pub q: i32 }
+    // dependencies reachable only through the arguments of Result's error type
+    #[derive(TS)]
+    #[ts(export_to = "result_root.ts")]
+    pub struct RS { pub r: Result<P1, Vec<P3>> }
     // a dependency reachable only through the arguments of a type spelled without `<..>` (alias), and through a root-level argument
     pub type AliasVec = Vec<P1>;
     #[derive(TS)]
@@ -172,7 +189,7 @@ fn export_step(kind: &str, ty: &str, dir: Option<&str>) -> Result<(), String> {
         "export_all_to" => <$t>::export_all_to(dir.unwrap()),
         _ => panic!("unknown step kind"),
     } } }
-    let r = match ty { "A" => go!(hist::A), "B" => go!(hist::B), "C" => go!(hist::C), "D" => go!(hist::D), "M" => go!(hist::M), "N" => go!(hist::N), "AL" => go!(hist::AL), "GR" => go!(hist::GR<Vec<hist::P2>>), "Z" => go!(hist::Z), "W1" => go!(hist::W1), "W2" => go!(hist::W2), "P1" => go!(hist::P1), _ => panic!("unknown type") };
+    let r = match ty { "A" => go!(hist::A), "B" => go!(hist::B), "C" => go!(hist::C), "D" => go!(hist::D), "M" => go!(hist::M), "N" => go!(hist::N), "AL" => go!(hist::AL), "RS" => go!(hist::RS), "Q" => go!(hist::Q), "Pair" => go!(hist::Pair<i32>), "Pair2" => go!(hist::Pair2), "Pair3" => go!(hist::Pair3), "GR" => go!(hist::GR<Vec<hist::P2>>), "Z" => go!(hist::Z), "W1" => go!(hist::W1), "W2" => go!(hist::W2), "P1" => go!(hist::P1), _ => panic!("unknown type") };
     r.map_err(|e| format!("{e:?}"))
 }
 
